@@ -11,12 +11,12 @@ def M(pid, name, file, old, new, expect=None, count=1):
                         expect=expect, count=count))
 
 
-def MA(pid, name, file, scope, stmt, new, expect=None):
+def MA(pid, name, file, scope, stmt, new, expect=None, nth=None):
     """AST-located edit: the statement in ``scope`` (dotted path of nested
     defs/classes) whose ast.unparse equals ``stmt`` (prefix if it ends in
     '...') is replaced by ``new`` (re-indented to the statement)."""
     MUTANTS.append(dict(pid=pid, name=name, file=file, scope=scope,
-                        stmt=stmt, new=new, expect=expect))
+                        stmt=stmt, new=new, expect=expect, nth=nth))
 
 
 DIFF = 'odl/discr/diff_ops.py'
@@ -366,3 +366,69 @@ MA('C06', 'left vector mult derivative drops vector', OPR,
    'OperatorLeftVectorMult.derivative',
    'return self.vector * self.operator.derivative(x)',
    'return self.operator.derivative(x)', 'OperatorLeftVectorMult.derivative')
+
+# ---- C01 -------------------------------------------------------------------
+NPYT = 'odl/space/npy_tensors.py'
+SPC = 'odl/set/space.py'
+PSP = 'odl/space/pspace.py'
+MA('C01', 'blas guard any contiguous', NPYT, '_blas_is_applicable',
+   'if any((x.dtype != args[0].dtype for x in args[1:])):...',
+   '''if any((x.dtype != args[0].dtype for x in args[1:])):
+    return False
+elif any((x.dtype not in _BLAS_DTYPES for x in args)):
+    return False
+elif not (any((x.flags.f_contiguous for x in args)) or all((x.flags.c_contiguous for x in args))):
+    return False
+elif any((x.size > np.iinfo('int32').max for x in args)):
+    return False
+else:
+    return True''', 'C01-R1b')
+MA('C01', '__sub__ writes into self', SPC, 'LinearSpaceElement.__sub__',
+   'return self.space.lincomb(1, self, -1, other, out=tmp)',
+   'return self.space.lincomb(1, self, -1, other, out=self)',
+   'LinearSpaceElement.__sub__')
+MA('C01', 'pspace lincomb swaps operands', PSP, 'ProductSpace._lincomb',
+   'space._lincomb(a, xp, b, yp, outp)', 'space._lincomb(a, yp, b, xp, outp)',
+   'ProductSpace._lincomb')
+MA('C01', 'broadcast applies add always', PSP,
+   '_broadcast_arithmetic._broadcast_arithmetic_impl',
+   'res = getattr(xi, op)(other)', "res = getattr(xi, '__add__')(other)",
+   '_broadcast_arithmetic')
+MA('C01', 'rsub scalar sign', SPC, 'LinearSpaceElement.__rsub__',
+   'return self.space.lincomb(1, tmp, -1, self, out=tmp)',
+   'return self.space.lincomb(1, tmp, 1, self, out=tmp)',
+   'LinearSpaceElement.__rsub__')
+MA('C01', 'ipow odd branch one factor short', SPC,
+   'LinearSpaceElement.__ipow__', 'for _ in range(p - 2):...',
+   'for _ in range(p - 3):\n    tmp *= self', 'LinearSpaceElement.__ipow__')
+MA('C01', 'itruediv multiplies by scalar', SPC,
+   'LinearSpaceElement.__itruediv__',
+   'return self.space.lincomb(1.0 / other, self, out=self)',
+   'return self.space.lincomb(other, self, out=self)',
+   'LinearSpaceElement.__itruediv__')
+MA('C01', 'lincomb skips x2 membership', SPC, 'LinearSpace.lincomb',
+   'if x2 not in self:...', '', 'LinearSpace.lincomb')
+MA('C01', 'x1 is x2 recursion keeps b', NPYT, '_lincomb_impl',
+   '_lincomb_impl(a + b, x1, 0, x1, out)', '_lincomb_impl(a, x1, 0, x1, out)',
+   'C01-R1')
+MA('C01', 'fallback axpy division regression', NPYT,
+   '_lincomb_impl.fallback_axpy', 'x2 += a * x1',
+   'x2 /= a\nx2 += x1\nx2 *= a', 'C01-R2')
+MA('C01', 'discr multiply swaps out', 'odl/discr/discr_space.py',
+   'DiscretizedSpace._multiply',
+   'self.tspace._multiply(x1.tensor, x2.tensor, out.tensor)',
+   'self.tspace._multiply(x1.tensor, out.tensor, x2.tensor)',
+   'DiscretizedSpace._multiply')
+MA('C01', 'out is x2 leaf scales with a', NPYT, '_lincomb_impl',
+   'scal(b, out_arr, size)', 'scal(a, out_arr, size)', 'C01-R1', nth=0)
+MA('C01', 'a == 1 leaf without copy', NPYT, '_lincomb_impl',
+   'copy(x1_arr, out_arr, size)', 'pass', 'C01-R1', nth=1)
+MA('C01', 'axpy into the operand', NPYT, '_lincomb_impl',
+   'axpy(x2_arr, out_arr, size, b)', 'axpy(out_arr, x2_arr, size, b)',
+   'C01-R1', nth=1)
+MA('C01', 'generic leaf zero-scales stale out instead of copying', NPYT,
+   '_lincomb_impl', 'copy(x2_arr, out_arr, size)',
+   'scal(0, out_arr, size)\naxpy(x2_arr, out_arr, size, 1)', 'C01-R1', nth=1)
+MA('C01', 'small regime accumulates into out', NPYT, '_lincomb_impl',
+   'out.data[:] = a * x1.data + b * x2.data',
+   'out.data[:] = a * x1.data + b * x2.data + 0 * out.data', 'C01-R1')
